@@ -109,7 +109,10 @@ def drained_violations(world, label_filter=None):
             ch = view.ends.get(src)
             if ch is None:
                 continue
-            if ch.bufferedAmount != 0:
+            # (messages which close() discarded were never handed to the transport: on a closed channel the amount may
+            # stay, as in browsers - "does not reset to zero once the channel closes"; the per-point equality with the
+            # bytes accepted and not yet handed over is C13's clause buffered/amount)
+            if ch.bufferedAmount != 0 and ch.readyState != "closed":
                 out.append(("liveness/bufferedAmount", "%s@%s bufferedAmount=%d" % (label, src, ch.bufferedAmount)))
             if view.reliable and len(view.recv[dst]) != len(view.sent[src]):
                 peer = view.ends.get(dst)
